@@ -96,6 +96,11 @@ func (f *frame) callFn(fn *ssa.Function, bindings []Val, args []Val, resT *types
 	if key == "sort.Sort" || key == "sort.Stable" {
 		return f.sortCall(key, args, ins)
 	}
+	if key == "sort.Ints" && len(args) == 1 {
+		if st, ok := args[0].(Term); ok && st.T.K == KSlice {
+			return f.permuteSlice(key, st, nil, ins)
+		}
+	}
 	ct := u.eng.contracts[key]
 	if ct != nil && ct.Opaque {
 		u.eng.opaqueUsed[key] = true
@@ -892,6 +897,10 @@ func (f *frame) localResolver(at *ssa.BasicBlock) func(string) (Val, bool) {
 					continue
 				}
 				if obj := dr.Object(); obj != nil && obj.Name() == name {
+					if os.Getenv("GOVC_DEBUGRES") != "" {
+						_, have := f.vals[dr.X]
+						fmt.Fprintf(os.Stderr, "  cand %s in b%d: X=%s (%T) have=%v\n", name, b.Index, dr.X.Name(), dr.X, have)
+					}
 					if _, have := f.vals[dr.X]; !have {
 						if _, isConst := dr.X.(*ssa.Const); !isConst {
 							continue
@@ -905,7 +914,37 @@ func (f *frame) localResolver(at *ssa.BasicBlock) func(string) (Val, bool) {
 				}
 			}
 		}
+		if c, isConst := best.(*ssa.Const); isConst && c != nil {
+			// `var m = map[K]V{}` (and similar) is recorded with the zero value at the declaration; the value the
+			// variable really holds is defined in the same or a deeper dominating block and recorded further down
+			for _, b := range f.fn.Blocks {
+				for _, ins := range b.Instrs {
+					dr, ok := ins.(*ssa.DebugRef)
+					if !ok || dr.IsAddr || dr.Object() == nil || dr.Object().Name() != name {
+						continue
+					}
+					xi, isIns := dr.X.(ssa.Instruction)
+					if !isIns || xi.Block() == nil {
+						continue
+					}
+					if _, have := f.vals[dr.X]; !have {
+						continue
+					}
+					if _, isPhi := dr.X.(*ssa.Phi); isPhi {
+						continue
+					}
+					xb := xi.Block()
+					if xb != at && xb.Dominates(at) && domDepth(xb) >= bestDepth {
+						best = dr.X
+						bestDepth = domDepth(xb)
+					}
+				}
+			}
+		}
 		if best != nil {
+			if os.Getenv("GOVC_DEBUGRES") != "" {
+				fmt.Fprintf(os.Stderr, "resolve %s at b%d -> %s = %v\n", name, at.Index, best.Name(), f.value(best))
+			}
 			return f.value(best), true
 		}
 		return f.loopFormFallback(at, name)
@@ -1014,6 +1053,10 @@ func (f *frame) loopHeader(li *loopInfo) {
 	for i, inv := range ls.Invariants {
 		t := env.evalBool(inv.X)
 		u.oblige(f.key, "inv", fmt.Sprintf("L%d.%s.init", li.ordinal, clauseName(inv, i)), f.curReach, t, "loop invariant on entry: "+inv.Src, inv.Tag)
+		if os.Getenv("GOVC_SEQ") != "" {
+			aenv := f.invEnv(li.header, f.cur)
+			u.assume(implies(f.curReach, aenv.evalBool(inv.X)))
+		}
 	}
 	f.loopEntrySt[li.header.Index] = f.cur.clone()
 	// 2. havoc: phis and modified heaps
@@ -1157,6 +1200,12 @@ func (f *frame) backEdge(from, to *ssa.BasicBlock, cond Term) {
 			t = mkBool(true)
 		}
 		u.oblige(f.key, "inv", fmt.Sprintf("L%d.%s.step", li.ordinal, clauseName(inv, i)), cond, t, "loop invariant preserved: "+inv.Src, inv.Tag)
+		// the conjunction of the invariants is proved clause by clause: a later clause may use the earlier ones
+		// (each of them has its own obligation, so nothing is assumed that is not also checked)
+		if os.Getenv("GOVC_SEQ") != "" && t.S != "true" {
+			aenv := f.invEnv(to, f.cur)
+			u.assume(implies(cond, aenv.evalBool(inv.X)))
+		}
 	}
 	if ls.Decreases != nil {
 		d := env.evalInt(ls.Decreases.X)
@@ -1289,7 +1338,8 @@ func (u *Unit) scanMods(fn *ssa.Function, inScope func(*ssa.BasicBlock) bool, ad
 				add(hn, i, depth == 0)
 				add("G.allocated", nil, false)
 			case *ssa.MapUpdate:
-				add("G.maps", nil, false)
+				u.eng.heapSorts["G.mapEpoch"] = "Int"
+				add("G.mapEpoch", nil, false)
 			case *ssa.Call:
 				u.scanCallMods(i.Common(), add, depth)
 			case *ssa.Defer:
@@ -1786,12 +1836,23 @@ func (f *frame) sortCall(key string, args []Val, ins ssa.Instruction) Val {
 	if !ok {
 		f.bad("%s on an interface value whose dynamic type is not known in this function", key)
 	}
-	sl, isSlice := di.T.Underlying().(*types.Slice)
+	_, isSlice := di.T.Underlying().(*types.Slice)
 	s, isTerm := di.V.(Term)
 	if !isSlice || !isTerm {
 		f.bad("%s on a non-slice type %s", key, di.T)
 	}
 	u.note("%s(%s): modelled as a permutation of the slice elements; Len/Less/Swap of the type are assumed to implement the slice order and not to panic", key, di.T)
+	return f.permuteSlice(key, s, di.T, ins)
+}
+
+// permuteSlice: the elements of slice s are permuted in place; dt is the sort.Interface type whose Less contract
+// gives the order (nil for sort.Ints: ascending integers).
+func (f *frame) permuteSlice(key string, s Term, dt types.Type, ins ssa.Instruction) Val {
+	u := f.u
+	sl := s.T.Go.Underlying().(*types.Slice)
+	if dt == nil {
+		u.note("%s: modelled as a permutation of the slice elements into ascending order", key)
+	}
 	el := sl.Elem()
 	hn, hs, es := u.elemHeapName(el)
 	h := u.heap(f.cur, hn, hs)
@@ -1814,14 +1875,24 @@ func (f *frame) sortCall(key string, args []Val, ins ssa.Instruction) Val {
 		inr("q_i"), inr("("+iv+" q_i)"), pm, iv, iv), sBool})
 	u.assume(Term{fmt.Sprintf("(forall ((q_i Int)) (! (=> (not %s) (= (select %s q_i) (select %s q_i))) :pattern ((select %s q_i))))", inr("q_i"), na, old, na), sBool})
 	u.frameWrite(hn, Term{"(ite (< " + lo.S + " " + hi.S + ") " + sliceRef(s).S + " " + sanitize("G.nextRef") + "!init)", sInt}, &lo, &hi, "elements permuted by "+key)
-	asc := f.lessChain(key, di.T, s, true) // on the state before the sort
+	var asc *Term
+	if dt != nil {
+		asc = f.lessChain(key, dt, s, true) // on the state before the sort
+	}
 	u.setHeap(f.cur, hn, hs, sto(h, sliceRef(s), Term{na, nil}))
 	if asc != nil {
 		// data that is already strictly ascending (Less(q, q+1) for all neighbours, Less transitive as sort.Interface
 		// demands) has exactly one sorted arrangement: the sort leaves it as it is
 		u.assume(Term{fmt.Sprintf("(=> %s (forall ((q_i Int)) (! (= (select %s q_i) (select %s q_i)) :pattern ((select %s q_i)))))", asc.S, na, old, na), sBool})
 	}
-	if srt := f.lessChain(key, di.T, s, false); srt != nil {
+	if dt == nil {
+		// sort.Ints: ascending
+		arr := "(select " + u.heap(f.cur, hn, hs).S + " (s-ref " + s.S + "))"
+		u.assume(Term{fmt.Sprintf("(forall ((q_srt Int) (q_srt2 Int)) (! (=> (and (<= %[1]s q_srt) (< q_srt q_srt2) (< q_srt2 (+ %[1]s %[2]s))) (<= (select %[3]s q_srt) (select %[3]s q_srt2))) :pattern ((select %[3]s q_srt) (select %[3]s q_srt2))))",
+			sliceOff(s).S, sliceLen(s).S, arr), sBool})
+		return nil
+	}
+	if srt := f.lessChain(key, dt, s, false); srt != nil {
 		u.assume(*srt)
 		u.note("%s: ascending order by the contract of the type's Less (Less(j, i) is false for all i < j); strictly ascending input is left unchanged", key)
 	}
